@@ -130,6 +130,18 @@ func newSource(rg *rng, kind string, r image.Rectangle) image.Image {
 		pal := make(color.Palette, 16)
 		for i := range pal {
 			pal[i] = color.NRGBA{uint8(rg.next()), uint8(rg.next()), uint8(rg.next()), uint8(rg.next())}
+			switch i % 8 {
+			case 1: // transparent and nearly transparent entries that still carry colour (PLTE + tRNS)
+				pal[i] = color.NRGBA{uint8(rg.next()), uint8(rg.next()), uint8(rg.next()), uint8(rg.pick(0, 0, 1, 1, 2, 3, 5))}
+			case 2: // other dynamic types a palette may hold
+				pal[i] = color.RGBA64{uint16(rg.intn(0x8000)), uint16(rg.intn(0x8000)), uint16(rg.intn(0x8000)), 0x8000 + uint16(rg.intn(0x8000))}
+			case 3:
+				pal[i] = color.Gray{uint8(rg.next())}
+			case 4:
+				pal[i] = color.NRGBA64{uint16(rg.next()), uint16(rg.next()), uint16(rg.next()), uint16(rg.pick(0, 1, 255, 256, 65535))}
+			case 5:
+				pal[i] = color.NRGBA{uint8(rg.next()), uint8(rg.next()), uint8(rg.next()), 255}
+			}
 		}
 		m := image.NewPaletted(outer, pal)
 		for i := range m.Pix {
@@ -145,6 +157,13 @@ func newSource(rg *rng, kind string, r image.Rectangle) image.Image {
 	// the standard library's chroma-plane arithmetic is wrong for negative coordinates (integer
 	// division truncates): keep subsampled YCbCr images at non-negative, non-zero origins
 	if r.Min.X < 0 || r.Min.Y < 0 || outer.Min.X < 0 || outer.Min.Y < 0 {
+		// ... but where the standard library itself handles the negative geometry (every pixel of the
+		// sub-image can be read), use it as it is: half of the time, so both classes are generated
+		if rg.intn(2) == 0 {
+			if m := tryYCbCr(rg, kind, outer, r); m != nil {
+				return m
+			}
+		}
 		shift := image.Pt(0, 0)
 		if outer.Min.X < 0 {
 			shift.X = -outer.Min.X + 1
@@ -161,6 +180,35 @@ func newSource(rg *rng, kind string, r image.Rectangle) image.Image {
 	fill(m.Cb)
 	fill(m.Cr)
 	return m.SubImage(r)
+}
+
+// tryYCbCr builds the image at the (negative) geometry asked for and reads every pixel once; nil if
+// the standard library panics on it.
+func tryYCbCr(rg *rng, kind string, outer, r image.Rectangle) (img image.Image) {
+	defer func() {
+		if recover() != nil {
+			img = nil
+		}
+	}()
+	ratio := map[string]image.YCbCrSubsampleRatio{"ycbcr444": image.YCbCrSubsampleRatio444, "ycbcr422": image.YCbCrSubsampleRatio422, "ycbcr420": image.YCbCrSubsampleRatio420,
+		"ycbcr440": image.YCbCrSubsampleRatio440, "ycbcr411": image.YCbCrSubsampleRatio411, "ycbcr410": image.YCbCrSubsampleRatio410}[kind]
+	m := image.NewYCbCr(outer, ratio)
+	for _, p := range [][]uint8{m.Y, m.Cb, m.Cr} {
+		for i := range p {
+			p[i] = uint8(rg.next())
+		}
+	}
+	sub := m.SubImage(r)
+	b := sub.Bounds()
+	for y := b.Min.Y; y < b.Max.Y; y++ {
+		for x := b.Min.X; x < b.Max.X; x++ {
+			sub.At(x, y)
+		}
+	}
+	if b.Empty() {
+		return nil
+	}
+	return sub
 }
 
 type dstCase struct {
